@@ -48,7 +48,7 @@ IsHex(v) == Len(v) >= 1 /\ \A i \in 1..Len(v) : IsHexChar(SubSeq(v, i, i))
 SigDigits(v) ==
   LET nz == {i \in 1..Len(v) : SubSeq(v, i, i) # "0"}
   IN  IF nz = {} THEN 0 ELSE Len(v) + 1 - (CHOOSE i \in nz : \A j \in nz : i <= j)
-IsZeroValue(v) == IsHex(v) /\ SigDigits(v) = 0
+IsZeroValue(v) == Len(v) >= 1 /\ \A i \in 1..Len(v) : SubSeq(v, i, i) = "0"
 ConstBytes(v)  == IF SigDigits(v) = 0 THEN 1 ELSE (SigDigits(v) + 1) \div 2
 
 ZeroPush(it)   == it.n = "PUSH0" \/ (it.n = "PUSH" /\ IsZeroValue(it.v))
